@@ -18,7 +18,11 @@ def run(ctx):
     tl_judged, tl_viol, tl_samples, tl_incon = c13real.run_timelines(ctx, scripts)
     viol += tl_viol
     ctx.log("c13 (whole release binary + chronyd stand-in, real time): %d status samples judged in %d timelines" % (tl_judged, len(scripts)))
-    inconclusive = incon or real.get("inconclusive") or tl_incon
+    # reference-id names of every spelling through the command line: an unreadable PHC attribute degrades the status for all of them
+    _vb, vs, name_info = c13real.run_phc_names(ctx)
+    viol += vs
+    ctx.log("reference-id names through the command line: %s" % {k: v for k, v in name_info.items() if k != "names"})
+    inconclusive = incon or real.get("inconclusive") or tl_incon or name_info.get("inconclusive")
     if not inconclusive and tl_judged < 20:
         inconclusive = "whole-binary timelines yielded only %d judged samples" % tl_judged
     if agg["shards_lost"]:
